@@ -1204,7 +1204,7 @@ def stream_s4(cx):
         det = out.split(" FAIL ", 1)[-1]
         last = det.split(" ")[-1]
         if "result=hang" in req:
-            if cx.prop in ("C16", "C09"):
+            if cx.prop in ("C16", "C09") and confirmed_hang(cx, "mut", case_of(req)):
                 cx.failing.append(("S4", case_of(req), "mutator_did_not_return_within_10s"))
         elif "result=panic" in req or last.startswith("panic"):
             if cx.prop in ("C16", "C09"):
@@ -1220,6 +1220,21 @@ def stream_s4(cx):
         cx.cov["distinct_nontrivial"] = len(fired)
     if bad:
         cx.corr.append(dict(stream="S4", count=len(bad), first=bad[0][1][:1200]))
+
+
+def confirmed_hang(cx, cmd, case):
+    """the harness watchdog gives a direct call 10 s; on a heavily loaded machine a worker thread can miss that without
+    hanging.  A hang that is real is deterministic: the call is made once more, alone, with a minute to finish."""
+    try:
+        out = _harness_one([cmd, "--replay"] + case.split(" "), timeout=75)
+    except subprocess.TimeoutExpired:
+        return True
+    except Exception:
+        return True
+    if "result=hang" in out:
+        return True
+    cx.cov["watchdog_timeouts_not_reproduced"] = cx.cov.get("watchdog_timeouts_not_reproduced", 0) + 1
+    return False
 
 
 def stream_s5(cx):
@@ -1238,9 +1253,11 @@ def stream_s5(cx):
             ok += 1
             continue
         det = out.split(" ")[-1]
-        if "result=panic" in req or "result=hang" in req:
+        if "result=panic" in req or ("result=hang" in req and confirmed_hang(cx, "src", case_of(req))):
             if cx.prop in ("C18", "C09"):
                 cx.failing.append(("S5", case_of(req), "entropy_adapter_panicked_or_hung"))
+        elif "result=hang" in req:
+            pass
         elif det.startswith("contract:"):
             if cx.prop == "C18":
                 cx.failing.append(("S5", case_of(req), det[:300]))
